@@ -512,3 +512,12 @@ func init() {
 	ctl("omitted columns treated like an empty list", "S-ALLCOLS", "filter|omitted columns", "server", "", "columnSet", kExpr, "columns == nil", 0, to("false"))
 	ctl("empty table update stored", "S-NOEMPTY", "filter2|table added only", "server", "monitor", "filter2", kExpr, "len(tu2) > 0", 0, to("true"))
 }
+
+func init() {
+	ctl("Row decoder answers a bad column with success", "ERR-NILRET", "(*ovsdb.Row).UnmarshalJSON|tested error", "ovsdb", "Row", "UnmarshalJSON", kStmt, "return err", 0, to("return nil"))
+	ctl("Commit answers a failed cache update with success", "ERR-NILRET", "Commit|tested error", "database/inmemory", "inMemoryDatabase", "Commit", kStmt, "return err", 0, to("return nil"))
+}
+
+func init() {
+	ctl("generic error loses its arm in ResultFromError", "K3", "ResultFromError|generic type", "ovsdb", "", "ResultFromError", kCase, "*Error", 0, del)
+}
